@@ -20,6 +20,7 @@ import Driver.World
 import Driver.Aiff
 import Driver.Ledger
 import Driver.Meta
+import Driver.Ieee
 open Sf
 
 def lawOf (s : String) : Option G711.Law :=
@@ -84,4 +85,5 @@ def main (args : List String) : IO UInt32 := do
   | "aiff" :: rest => Driver.Aiff.cmd rest
   | "ledger" :: _ => LedgerDriver.cmd
   | "meta" :: rest => do MetaCmd.run rest (← readLines)
+  | "ieee" :: rest => Driver.Ieee.cmd rest
   | _ => IO.eprintln "usage: sfmodel <g711|...> ..."; return 2
